@@ -1,6 +1,6 @@
 // instrument: tie C source rewriter. Copies the non-test Go files of a /repo package into a
 // scratch directory, rewriting ONLY the import paths "sync/atomic" and "sync" (to the scheduler
-// shims with identical APIs) and calls of the builtin close (to sched.Close), and writes a
+// shims with identical APIs) and calls of the builtin close (to sched.CloseLate / sched.Close), and writes a
 // `go build -overlay` file that maps them over the stub package <dst-pkg-dir> of the harness.
 //
 //	instrument -src /repo/gsync -dst /verif/harness/instr/gsyncx -tmp <scratch dir> -overlay <file>
@@ -57,16 +57,53 @@ func main() {
 			fail(err)
 		}
 		usesClose := false
+		// a statement `close(X)` becomes vsched.CloseLate(func(op *vsched.Op) { vsched.CloseNow(op, X) }):
+		// yield first, evaluate X when the close is performed (see sched.CloseLate)
+		stmtCalls := map[*ast.CallExpr]bool{}
 		ast.Inspect(f, func(nd ast.Node) bool {
-			if c, ok := nd.(*ast.CallExpr); ok {
-				if id, ok := c.Fun.(*ast.Ident); ok && id.Name == "close" && id.Obj == nil && len(c.Args) == 1 {
-					c.Fun = &ast.SelectorExpr{X: ast.NewIdent("vsched"), Sel: ast.NewIdent("Close")}
-					usesClose = true
-					stats["close"]++
+			if es, ok := nd.(*ast.ExprStmt); ok {
+				if c, ok := es.X.(*ast.CallExpr); ok {
+					stmtCalls[c] = true
 				}
 			}
 			return true
 		})
+		var rewritten []*ast.CallExpr
+		ast.Inspect(f, func(nd ast.Node) bool {
+			if c, ok := nd.(*ast.CallExpr); ok {
+				if id, ok := c.Fun.(*ast.Ident); ok && id.Name == "close" && id.Obj == nil && len(c.Args) == 1 {
+					usesClose = true
+					stats["close"]++
+					if stmtCalls[c] {
+						rewritten = append(rewritten, c)
+						return true
+					}
+					c.Fun = &ast.SelectorExpr{X: ast.NewIdent("vsched"), Sel: ast.NewIdent("Close")}
+				}
+			}
+			return true
+		})
+		for _, c := range rewritten {
+			// every new node carries the position of the original call, so that the printer keeps
+			// the file's comments where they were
+			pos, end := c.Pos(), c.End()
+			id := func(n string) *ast.Ident { return &ast.Ident{NamePos: pos, Name: n} }
+			inner := &ast.CallExpr{
+				Fun:    &ast.SelectorExpr{X: id("vsched"), Sel: id("CloseNow")},
+				Lparen: pos,
+				Args:   []ast.Expr{id("vschedOp"), c.Args[0]},
+				Rparen: end,
+			}
+			lit := &ast.FuncLit{
+				Type: &ast.FuncType{Func: pos, Params: &ast.FieldList{Opening: pos, Closing: pos, List: []*ast.Field{{
+					Names: []*ast.Ident{id("vschedOp")},
+					Type:  &ast.StarExpr{Star: pos, X: &ast.SelectorExpr{X: id("vsched"), Sel: id("Op")}},
+				}}}},
+				Body: &ast.BlockStmt{Lbrace: pos, List: []ast.Stmt{&ast.ExprStmt{X: inner}}, Rbrace: end},
+			}
+			c.Fun = &ast.SelectorExpr{X: id("vsched"), Sel: id("CloseLate")}
+			c.Args = []ast.Expr{lit}
+		}
 		for _, im := range f.Imports {
 			p, _ := strconv.Unquote(im.Path.Value)
 			switch p {
